@@ -70,7 +70,7 @@ PROPS = {
         title="terminal statuses are final",
         theorems={STATUS: ["C04_failed_final", "C04_canceled_final", "C04_succeeded_final", "C04_report_keeps_terminal", "tbl_succeeded_wf"], NEXT: ["C04_no_offer_when_succeeded_or_canceled", "C04_failed_offers_only_run_on_fail", "C04_rejected_request_no_effect", "tbl_valid_request_applies"]},
         keys=["status", "staged", "sequence", "tasks", "contexts", "routes"], offers="ids",
-        prof=dict(), hist=dict(p_pause=0.05, p_cancel=0.05, p_any_req=0.5, p_dup_report=0.1, p_fail=0.35), monitor="C04", unproven=[],
+        prof=dict(), hist=dict(p_pause=0.05, p_cancel=0.05, p_any_req=0.5, p_dup_report=0.1, p_fail=0.35, p_bogus_report=0.08), monitor="C04", unproven=[],
     ),
     "C05": dict(
         title="persist/restore unobservable",
@@ -160,7 +160,7 @@ PROPS = {
         title="accepted definitions are executable; broken references reported",
         theorems={SITES: ["specFacts_expr_positions_inspected", "specFacts_workflow_inspected"], STATUS: ["tbl_task_targets_have_events", "tbl_item_targets_have_events", "C15_task_events_accepted"], ERRORS: ["C11_update_never_raises_expr", "C11_next_never_raises_expr"],
                   NEXTTOTAL: ["C11_next_never_raises", "C11_error_handler_total"]},
-        keys=["status", "errors"], offers="ids", prof=dict(p_badtype=0.15), hist=dict(p_pause=0.05, p_cancel=0.05, p_rerun=0.2),
+        keys=["status", "errors"], offers="ids", prof=dict(p_badtype=0.15), hist=dict(p_pause=0.05, p_cancel=0.05, p_rerun=0.2, p_bogus_report=0.1),
         monitor="C15", unproven=["C15_no_internal_error (history) not proved; the inspectors are not modelled, only their inventories are generated"],
     ),
     "C16": dict(
